@@ -9,8 +9,8 @@
 //! Space (bounded exhaustive): EVERY program of <= k letters (k = 3 quick, 4 thorough)
 //! over the 20-letter alphabet LETTERS (one instruction per letter; loops: a self-jump
 //! `jnzi` that spins until out of gas, `jnzb` to the previous instruction guarded by a
-//! counter, `jmpb` two instructions back; calls of contract A (3 instructions: log, sww,
-//! ret), of contract B (log, ret; never armed) and of A with 5 gas; `jal` into a fixed
+//! counter, `jmpb` two instructions back; calls of contract A (3 instructions: log, mint,
+//! ret), of contract B (log, call A, ret; never armed) and of A with 1 gas; `jal` into a fixed
 //! subroutine; tr, log, logd, aloc, ret, retd, rvrt, a memory-ownership panic, an
 //! arithmetic panic (`subi` below zero)) embedded in the fixed script
 //!     progkit prelude (9) | ji 12 | SUB: log | jal $zero 0x13 (return) | movi 0x10 2 |
@@ -95,9 +95,9 @@ use vcore::{
 
 // ------------------------------------------------------------------ the fixed script
 
-/// Unit gas schedule: the longest loop-free program (4 calls of A + subroutine) needs 32 gas;
+/// Unit gas schedule: the longest loop-free program (4 calls of B, each calling A) needs 47 gas;
 /// everything that loops is cut by OutOfGas after at most GAS_LIMIT instructions.
-const GAS_LIMIT: u64 = 40;
+const GAS_LIMIT: u64 = 48;
 const MAX_TRACE: usize = 64;
 
 /// instruction indices (from $is) of the fixed parts
@@ -160,7 +160,13 @@ fn code_a() -> Vec<Instruction> {
 }
 
 fn code_b() -> Vec<Instruction> {
-    vec![op::log(RegId::ONE, RegId::ONE, RegId::ZERO, RegId::ZERO), op::ret(RegId::ONE)]
+    vec![
+        op::log(RegId::ONE, RegId::ONE, RegId::ZERO, RegId::ZERO),
+        // nested call of A (the callee keeps the script's pointer registers): A's breakpoints
+        // must also fire at depth 2, under A's name
+        op::call(r::CALL_A, RegId::ZERO, r::ASSET_BASE, RegId::CGAS),
+        op::ret(RegId::ONE),
+    ]
 }
 
 struct Env {
@@ -822,52 +828,18 @@ fn compact(locs: &[Loc]) -> Vec<String> {
     out.into_iter().map(|(s, n)| if n == 1 { s } else { format!("{s} x{n}") }).collect()
 }
 
-fn explore(ctx: &Ctx) {
-    let k = ctx.pick(3u32, 4u32);
-    ctx.rule(format!(
-        "every program of <= {k} letters over LETTERS (shortest first) x every subset of the script breakpoint locations (last set-up \
-         instruction, body instructions, final ret, subroutine entry) x every subset of contract A's 3 instructions (fewest breakpoints \
-         first) + single-stepping (without / with all breakpoints); each case = two transactions on one VM driven by transact + \
-         resume-until-done and compared with the uninterrupted runs and their step-wise traces. A case is non-trivial when at least \
-         one debug event was reported; distinct = distinct (sequence of event locations of the first transaction, outcome of both \
-         transactions)"
-    ));
-    ctx.assume("the uninterrupted references come from the same interpreter build: `transact` without any debugger call, and `init_script` + `execute` stepping with an inactive debugger");
-    ctx.assume("breakpoint locations are instruction counts relative to $is (`Breakpoint::script(n)`, `Breakpoint::new(contract, n)`), reported back in bytes (`Breakpoint::pc()`), as documented on the constructors");
-    ctx.assume("every instruction costs >= 1 gas, so all trace steps have pairwise different registers ($ggas) and the event-to-visit mapping is unique");
-    ctx.set(
-        "dont_care",
-        json!([
-            "visits of an armed location (or, single-stepping, executed instructions) for which NO event is reported: the statement bounds events from above only ('at most once per reached location'); counted in missed_visits",
-            "memory contents at an event (only the 64 registers, the receipt count, the reported location and the final results are compared)",
-            "what `resume` does after the program has completed, and abandoning a suspended run (the statement resumes after every event until completion)",
-            "breakpoints in contract B / at locations outside the enumerated set; predicates (VerifyPredicate debug states are never produced by the public API)",
-        ]),
-    );
-    ctx.set("strict_mode_C32_STRICT", json!(strict()));
-    ctx.set("letters", json!(LETTERS));
-    ctx.set("gas_limit", json!(GAS_LIMIT));
-    ctx.set(
-        "script_layout",
-        json!("prelude(9) | ji 12 | SUB(10): log | jal $zero r0x13 | movi r0x10 2 | movi r0x11 5 (13) | body (14..) | ret $one | rvrt $one"),
-    );
-    ctx.set("contract_a", json!(["log $one", "mint 1 coin of sub-asset [$fp..$fp+32]", "ret $one"]));
-    ctx.set("contract_b", json!(["log $one $one", "ret $one"]));
-
-    let env = env();
-    let nprog = space::seq_count(LETTERS.len() as u64, k);
-    let mut tot = Acc::default();
+fn pass(ctx: &Ctx, env: &Env, k: u32, lo: u64, hi: u64, tot: &mut Acc) {
     space::par_chunks(
-        nprog,
-        ctx.pick(4, 16),
+        hi - lo,
+        4,
         Acc::default,
         |i, acc| {
             if ctx.out_of_time() {
                 acc.skipped += 1;
                 return
             }
-            let seq = space::seq_at(LETTERS.len() as u64, k, i);
-            run_program(&env, &seq, acc);
+            let seq = space::seq_at(LETTERS.len() as u64, k, lo + i);
+            run_program(env, &seq, acc);
         },
         |a| {
             tot.programs += a.programs;
@@ -899,6 +871,54 @@ fn explore(ctx: &Ctx) {
             }
         },
     );
+}
+
+fn explore(ctx: &Ctx) {
+    let k = ctx.pick(3u32, 4u32);
+    ctx.rule(format!(
+        "every program of <= {k} letters over LETTERS (shortest first) x every subset of the script breakpoint locations (last set-up \
+         instruction, body instructions, final ret, subroutine entry) x every subset of contract A's 3 instructions (fewest breakpoints \
+         first) + single-stepping (without / with all breakpoints); each case = two transactions on one VM driven by transact + \
+         resume-until-done and compared with the uninterrupted runs and their step-wise traces. A case is non-trivial when at least \
+         one debug event was reported; distinct = distinct (sequence of event locations of the first transaction, outcome of both \
+         transactions)"
+    ));
+    ctx.assume("the uninterrupted references come from the same interpreter build: `transact` without any debugger call, and `init_script` + `execute` stepping with an inactive debugger");
+    ctx.assume("breakpoint locations are instruction counts relative to $is (`Breakpoint::script(n)`, `Breakpoint::new(contract, n)`), reported back in bytes (`Breakpoint::pc()`), as documented on the constructors");
+    ctx.assume("every instruction costs >= 1 gas, so all trace steps have pairwise different registers ($ggas) and the event-to-visit mapping is unique");
+    ctx.set(
+        "dont_care",
+        json!([
+            "visits of an armed location (or, single-stepping, executed instructions) for which NO event is reported: the statement bounds events from above only ('at most once per reached location'); counted in missed_visits",
+            "memory contents at an event (only the 64 registers, the receipt count, the reported location and the final results are compared)",
+            "what `resume` does after the program has completed, and abandoning a suspended run (the statement resumes after every event until completion)",
+            "breakpoints in contract B / at locations outside the enumerated set; predicates (VerifyPredicate debug states are never produced by the public API)",
+        ]),
+    );
+    ctx.set("strict_mode_C32_STRICT", json!(strict()));
+    ctx.set("letters", json!(LETTERS));
+    ctx.set("gas_limit", json!(GAS_LIMIT));
+    ctx.set(
+        "script_layout",
+        json!("prelude(9) | ji 12 | SUB(10): log | jal $zero r0x13 | movi r0x10 2 | movi r0x11 5 (13) | body (14..) | ret $one | rvrt $one"),
+    );
+    ctx.set("contract_a", json!(["log $one", "mint 1 coin of sub-asset [$fp..$fp+32]", "ret $one"]));
+    ctx.set("contract_b", json!(["log $one $one", "call A", "ret $one"]));
+
+    let env = env();
+    let nprog = space::seq_count(LETTERS.len() as u64, k);
+    let mut tot = Acc::default();
+    // one pass per program length, so that a run cut short by the time budget still completes
+    // all shorter programs
+    let mut per_length: Vec<Value> = vec![];
+    for len in 0..=k {
+        let lo = if len == 0 { 0 } else { space::seq_count(LETTERS.len() as u64, len - 1) };
+        let hi = space::seq_count(LETTERS.len() as u64, len);
+        let (before_run, before_skipped) = (tot.programs, tot.skipped);
+        pass(ctx, &env, k, lo, hi, &mut tot);
+        per_length.push(json!({"letters": len, "programs": hi - lo, "run": tot.programs - before_run, "not_run": tot.skipped - before_skipped}));
+    }
+    ctx.set("programs_per_length", json!(per_length));
     ctx.evals(tot.cases);
     ctx.outcomes_merge(&tot.outcomes);
     for (_, (score, s)) in tot.samples.iter() {
@@ -907,7 +927,7 @@ fn explore(ctx: &Ctx) {
         }
     }
     if tot.skipped > 0 {
-        ctx.cap(format!("time budget: {} of {} programs not run (programs are enumerated shortest first)", tot.skipped, nprog));
+        ctx.cap(format!("time budget: {} of {} programs not run (see programs_per_length; shorter programs are completed first)", tot.skipped, nprog));
     }
     ctx.set(
         "space",
